@@ -353,6 +353,16 @@ func c04Entries(m *Model) []c04Entry {
 			var k keytab.Keytab
 			if k.Unmarshal(b) == nil {
 				k.GetEncryptionKey(types.PrincipalName{NameString: []string{"u"}}, "R", 0, 18)
+				// names with as many components as an entry's count field may claim, whatever was actually read
+				for _, ns := range [][]string{{}, {"HTTP", "h"}, {"a", "b", "c"}, {"a", "b", "c", "d"}, {"", "", "", "", "", "", "", ""}} {
+					k.GetEncryptionKey(types.PrincipalName{NameString: ns}, "R", 0, 18)
+					k.GetEncryptionKey(types.PrincipalName{NameString: ns}, "", 1, 23)
+					for i, e := range k.Entries {
+						if i < 8 {
+							k.GetEncryptionKey(types.PrincipalName{NameString: ns}, e.Principal.Realm, 0, e.Key.KeyType)
+						}
+					}
+				}
 				k.Marshal()
 			}
 		}},
@@ -924,6 +934,16 @@ func TestC04(t *testing.T) {
 				n, f = sizes[i], [4]int{1, 0xffff, 0, 0} // a one-byte field at the last 16-bit offset
 			}
 			b := make([]byte, n)
+			switch i % 3 {
+			case 1: // every code unit a high surrogate (so the last one of any field is an unpaired one)
+				for j := 12; j+1 < n; j += 2 {
+					b[j], b[j+1] = 0x41, 0xd8
+				}
+			case 2: // pairs, so that fields of odd length in units end inside a pair
+				for j := 12; j+3 < n; j += 4 {
+					b[j], b[j+1], b[j+2], b[j+3] = 0x3d, 0xd8, 0x00, 0xde
+				}
+			}
 			for j, x := range f {
 				binary.LittleEndian.PutUint16(b[2*j:], uint16(x))
 			}
